@@ -11,8 +11,11 @@ import traceback
 from . import tlc
 
 ROOT = os.path.dirname(os.path.dirname(os.path.abspath(__file__)))
-EVIDENCE_DIR = os.path.join(ROOT, 'evidence')
-REPLAY_DIR = os.path.join(ROOT, 'replays')
+# VERIF_OUT redirects evidence/replays (used when the checks are run against a scratch copy of the
+# repository, e.g. a seeded mutant via VERIF_REPO, so that the committed evidence is not overwritten)
+_OUT = os.environ.get('VERIF_OUT') or ROOT
+EVIDENCE_DIR = os.path.join(_OUT, 'evidence')
+REPLAY_DIR = os.path.join(_OUT, 'replays')
 KNOWN_FILE = os.path.join(ROOT, 'KNOWN_FINDINGS.txt')
 NCPU = int(os.environ.get('VERIF_NCPU', os.cpu_count() or 4))
 
